@@ -170,7 +170,11 @@ class DataReadout(MeterMessageBase):
     @property
     def is_valid(self) -> bool:
         """Return True when valitation (checksum etc.) is successfull."""
-        expected_checksum = self.expected_checksum
+        try:
+            expected_checksum = self.expected_checksum
+        except ValueError:
+            _LOGGER.debug("Invalid end line: %s", self._readout[self._end_pos :])
+            return False
         if expected_checksum is not None:
             if self._calculated_crc != expected_checksum:
                 _LOGGER.debug(
@@ -182,7 +186,7 @@ class DataReadout(MeterMessageBase):
         try:
             self._ident = self.identification_line
         except ValueError:
-            _LOGGER.debug("Invalid ident line: %s", self.identification_line)
+            _LOGGER.debug("Invalid ident line: %s", self._readout[: self._data_pos])
             return False
 
         for char in self._readout[self._data_pos : self._end_pos]:
@@ -288,7 +292,7 @@ class ModeDReader(MeterReaderBase[DataReadout]):
                 return readouts_received
 
             if self.is_in_hunt_mode:
-                if line[0] == START_CHARACTER_HEX:
+                if line[0] == START_CHARACTER_HEX and line.isascii():
                     line_str = line.decode("ascii")
                     if Ident.is_ident_line(line_str):
                         _LOGGER.debug("Ident line found: %s", line_str)
